@@ -226,6 +226,64 @@ def monitor(case, line):
     return None
 
 
+# ------------------------------------------------------------------ kind table
+FS_OPS = ["stat", "lstat", "fstat", "open", "close", "read", "write", "access", "mkdir", "rmdir", "unlink",
+          "rename", "readlink", "realpath", "scandir", "opendir", "fsync", "fdatasync", "ftruncate", "chmod",
+          "fchmod", "utime", "futime", "lutime", "copyfile", "sendfile", "statfs", "mkdtemp", "mkstemp", "link",
+          "symlink", "chown", "fchown", "lchown"]
+NI = {1: "NI_NUMERICHOST", 2: "NI_NUMERICSERV", 4: "NI_NOFQDN", 8: "NI_NAMEREQD", 16: "NI_DGRAM", 32: "NI_IDN"}
+
+
+def kind_cases(rng, thorough):
+    out = ["work", "rnd"]
+    out += ["fs %d %s" % (i, n) for i, n in enumerate(FS_OPS)]
+    for numeric in (0, 1):
+        for node, service in (("127.0.0.1", "-"), ("127.0.0.1", "80"), ("::1", "443"), ("localhost", "-"),
+                              ("example.invalid", "http"), ("-", "80"), ("xn--bcher-kva.invalid", "-")):
+            out.append("gai %d %s %s" % (numeric, node, service))
+    for flags in range(64):                       # every combination of the six glibc NI_* bits
+        out.append("gni %d %d" % (flags, 4))
+    for flags in (0, 1, 2, 3, 8, 16, 19, 63):
+        out.append("gni %d %d" % (flags, 6))
+    for _ in range(300 if thorough else 40):      # other integers: the table says "every flags value"
+        out.append("gni %d %d" % (rng.choice([rng.randrange(64, 256), rng.randrange(256, 2 ** 31 - 1)]),
+                                  rng.choice([4, 6])))
+    return out
+
+
+def describe_api(case):
+    t = case.split()
+    if t[0] == "work":
+        return "uv_queue_work"
+    if t[0] == "rnd":
+        return "uv_random (async)"
+    if t[0] == "fs":
+        return "uv_fs_%s (async)" % t[2]
+    if t[0] == "gai":
+        return "uv_getaddrinfo(node=%s, service=%s, ai_flags=%s)" % (t[2], t[3], "AI_NUMERICHOST" if t[1] == "1" else "0")
+    f = int(t[1])
+    names = "|".join(n for b, n in NI.items() if f & b) or "0"
+    return "uv_getnameinfo(%s, flags=%d = %s)" % ("::1" if t[2] == "6" else "127.0.0.1", f, names)
+
+
+def kind_monitor(case, line):
+    """The property-level rule: name lookups are slow I/O (and land in the slow queue, so the cap
+    applies), nothing else is."""
+    f = line.split()
+    if len(f) != 2:
+        return "kind harness ended with %r for %s" % (line, describe_api(case))
+    kind, where = f
+    lookup = case.split()[0] in ("gai", "gni")
+    names = {"c": "UV__WORK_CPU", "f": "UV__WORK_FAST_IO", "s": "UV__WORK_SLOW_IO", "?": "?", "x": "an unknown kind"}
+    if lookup and (kind != "s" or where != "slow"):
+        return "%s is submitted as %s and queued in %s: not counted against the slow-I/O cap" % \
+            (describe_api(case), names.get(kind, kind), "slow_io_pending_wq" if where == "slow" else "wq")
+    if not lookup and (kind == "s" or where != "wq"):
+        return "%s is submitted as %s and queued in %s: it competes for the slow-I/O share" % \
+            (describe_api(case), names.get(kind, kind), "slow_io_pending_wq" if where == "slow" else where)
+    return None
+
+
 def harness_error(line):
     return any(w in HARNESS_ERR for w in line.split()[-2:]) or line.strip() == ""
 
@@ -237,6 +295,7 @@ def main():
     try:
         lib = vf.build_libuv(chk.scratch, "ndebug")
         hpool = vf.cc_harness(chk.scratch, "c08_pool", ["c08_pool.c"], lib=lib, wraps=WRAPS)
+        hkinds = vf.cc_harness(chk.scratch, "c08_kinds", ["c08_kinds.c"], lib=lib, wraps=["uv__work_submit"])
         model = vf.model_bin("C08")
     except vf.BuildError as e:
         chk.violation("build failed: %s" % str(e)[:300], {"kind": "build", "log": str(e)}, found_input=False)
@@ -250,10 +309,33 @@ def main():
         out, _, _ = vf.run_lines([hpool], cases, env=env, shards=shards, timeout=1200)
         return out
 
+    # kind table: every public API with a spread of arguments, kind handed to uv__work_submit
+    def kind_part(kc):
+        sdir = os.path.join(chk.scratch.dir, "c08_kinds_dir")
+        os.makedirs(sdir, exist_ok=True)
+        kenv = dict(env, C08_SCRATCH_DIR=sdir)
+        ka, _, _ = vf.run_lines([hkinds], kc, env=kenv, shards=4, timeout=600)
+        kb, _, _ = vf.run_lines([model, "kinds"], kc)
+        if len(ka) == len(kc):      # uv_queue_work's own call cannot be intercepted: kind prints as "?"
+            ka = [("? " + l.split()[1]) if c == "work" and l.split()[:1] == ["c"] else l for c, l in zip(kc, ka)]
+        bad = [l for l in ka if len(l.split()) != 2]
+        if bad and all(w in l for l in bad for w in ["fail"]) or len(ka) != len(kc):
+            print("HARNESS-ERROR: kind harness: %r" % (bad[:2] or "line count",))
+            chk.scratch.cleanup()
+            sys.exit(2)
+        vf.diff_cases(chk, "work kind of every API = Model/ThreadPool.v api_kind (kind table)", kc, ka, kb,
+                      kind_monitor)
+        chk.cov["kind_table"] = {"cases": len(kc), "apis": 2 + len(FS_OPS) + 2,
+                                 "getnameinfo_flag_values": sum(1 for c in kc if c.startswith("gni"))}
+
     if chk.replay:
         rp = __import__("json").load(open(chk.replay))
+        if rp.get("obligation", "").startswith("work kind"):
+            kind_part([rp["case"]])
+            chk.finish(level="proof", rule="replay of a kind-table case")
         cases = [rp["case"]]
     else:
+        kind_part(corpus("kinds.txt") + kind_cases(chk.rng, thorough))
         cases = corpus("cases.txt")
         cases += [gen_case(chk.rng, small=True) for _ in range(2000 if thorough else 150)]
         cases += [gen_case(chk.rng) for _ in range(12000 if thorough else 450)]
@@ -321,7 +403,10 @@ def main():
 
     chk.finish(
         level="proof",
-        rule="random scripts (1-3 loops, 1-8 pool threads, CPU / fs / getaddrinfo / random requests, uv_cancel "
+        rule="kind table: every public API that uses the pool (uv_queue_work, uv_random, 34 uv_fs_*, uv_getaddrinfo, "
+             "uv_getnameinfo with all 64 NI_* flag combinations and other integers) called once per argument set, the "
+             "kind handed to uv__work_submit and the queue the request lands in compared with api_kind; "
+             "random scripts (1-3 loops, 1-8 pool threads, CPU / fs / getaddrinfo / random requests, uv_cancel "
              "at random points incl. from completion callbacks, uv_run(NOWAIT) calls) x random schedules "
              "(uniform, bursty, thread subsets; signal-target and spurious wake-up choices) with a round-robin "
              "tail; compared step by step with the model; thorough adds enumerated schedules of small "
